@@ -31,6 +31,10 @@ ENDPOINTS = [
     # download by keys: the namespace is named inside every key of the JSON list
     dict(endpoint="v2.config.download.bykeys", method="POST", path=V2 + "/config/download", op="read", nsparam="tenant", json_list={"group": "g", "dataId": "{did}"}),
     dict(endpoint="v1.config.download.bykeys", method="POST", path=V1 + "/config/download", op="read", nsparam="tenant", json_list={"group": "g", "dataId": "{did}"}),
+    # ... and a key list that MIXES namespaces: the addressed namespace's key first, then one key of each other namespace
+    # (a request is refused as a whole or answers with the permitted keys only - never with a key of a forbidden namespace)
+    dict(endpoint="v2.config.download.bykeys.mixed", method="POST", path=V2 + "/config/download", op="read_mixed", nsparam="tenant", json_list={"group": "g", "dataId": "{did}"}, mixed=True),
+    dict(endpoint="v1.config.download.bykeys.mixed", method="POST", path=V1 + "/config/download", op="read_mixed", nsparam="tenant", json_list={"group": "g", "dataId": "{did}"}, mixed=True),
     # import of an archive (the public namespace's config): the target namespace is named by the `tenant` HEADER;
     # a `tenant` field of the upload form must not lead anywhere else
     dict(endpoint="v2.config.import.header", method="POST", path=V2 + "/config/import", op="write", nsparam="tenant", nsheader=True, multipart={}),
@@ -82,7 +86,12 @@ def instantiate(ep, combo, i):
         item = fill(ep["json_list"])
         if nsval is not None:
             item[ep["nsparam"]] = nsval
-        r["query"], r["json"], r["form"] = q, [item], None
+        items = [item]
+        if ep.get("mixed"):
+            for other in ("", "nsA", "nsB"):
+                if other != ns:
+                    items.append({"group": "g", "dataId": "d1-MARK-%s" % LABEL[other], ep["nsparam"]: other})
+        r["query"], r["json"], r["form"] = q, items, None
         return r
     if "multipart" in ep:
         r["multipart"], r["headers"] = {}, {}
@@ -159,6 +168,10 @@ def run(tier):
     c.traces(len(obs))
     ok_writes = [o for o in obs if o["op"] == "write" and allowed(o["priv"], o["ns"]) and o["changed"]]
     ok_reads = [o for o in obs if o["op"] in ("read", "list") and allowed(o["priv"], o["ns"]) and o["seen"]]
+    mixed_foreign = [o for o in obs if o["op"] == "read_mixed" and allowed(o["priv"], o["ns"]) and not all(allowed(o["priv"], n) for n in ("", "nsA", "nsB"))]
+    c.cov["mixed_key_lists_with_a_permitted_and_a_forbidden_namespace"] = len(mixed_foreign)
+    if len(mixed_foreign) < 20:
+        raise ToolError("too few mixed key lists that combine a permitted and a forbidden namespace: %d" % len(mixed_foreign))
     if len(ok_writes) < 20 or len(ok_reads) < 20:
         raise ToolError("allowed requests do not work (%d effective writes, %d reads with data): check is vacuous" % (len(ok_writes), len(ok_reads)))
     c.cov["endpoints"] = len(ENDPOINTS)
@@ -178,10 +191,10 @@ def run(tier):
     ]
     shutil.rmtree(sc, ignore_errors=True)
     return c.finish(
-        rule="complete product enumerated by TLC: the console data endpoints of the table (34) x 5 whitelist shapes x 5 blacklist shapes x 5 "
+        rule="complete product enumerated by TLC: the console data endpoints of the table (%d, incl. two key lists that mix namespaces) x 5 whitelist shapes x 5 blacklist shapes x 5 "
              "namespace spellings (explicit A / B, default namespace omitted / empty / 'public'), executed on the real console "
-             "app of a single-member Raft node with seeded data in three namespaces; TLC evaluates NoForeignAccess and "
-             "AllowedWorks on every observation; non-trivial = requests addressing a namespace the user may not access",
+             "app of a single-member Raft node with seeded data in three namespaces; TLC evaluates NoForeignAccess, NeverLeaks and "
+             "AllowedWorks on every observation; non-trivial = requests addressing a namespace the user may not access" % len(ENDPOINTS),
         exhaustive=True,
         checker_cmd="tools/vcheck C18 --tier %s" % tier)
 
